@@ -1,6 +1,5 @@
 # C03 — Abaco ingest: exact demultiplexing, gap filling, continuous frame numbering
-CLAIMED = False
-NOT_YET = "check under construction (nothing is claimed for it yet)"
+CLAIMED = True
 
 CFG = dict(
     rule="each case = a layout (1..4 channel groups, 1..8 channels each, 1..16 frames per packet, int16/int32 payloads, sync offsets from "
@@ -24,10 +23,38 @@ CFG = dict(
 )
 
 MANIFEST = dict(
-    text="under construction",
-    note="under construction",
+    text="Invariant/refinement proof in Lean 4 over a transcription of the Abaco reader-loop tick (distributePackets, fillMissingPackets + "
+         "MakePretendPacket, firstSeqNum, trimPacketsBefore, min-over-groups frame count, demuxData for int16/int32 payloads, distributeData "
+         "frame stamping): for ALL layouts (>=1 groups, any channel counts, any common frames-per-packet), ALL loss patterns, ALL batchings into "
+         "ticks (empty ticks, lagging groups) and ALL map iteration orders the run never panics and its blocks satisfy the oracle chkC03: every "
+         "channel's concatenated output = the arrived packets' own samples + equal-length filler for lost ones, in sequence order, for exactly "
+         "the packets every group can supply from the common start (C03_stream_exact, C03_sample_count); blocks have equal length on all "
+         "channels and hold the same global sequence window in every group (C03_groups_aligned, C03_block_windows); block frame numbers are "
+         "contiguous (C03_frames_contiguous); reported dropped frames add up to the frames filled in (C03_dropped_count); plus the packet-level "
+         "facts fill_inserts_exactly_gaps and demux_deinterleave. The same chkC03 judges the REAL loop's blocks on every run: the real "
+         "Sample/PrepareChannels/readerMainLoop/getNextBlock/distributeData are driven tick by tick through a scripted in-memory PacketProducer "
+         "and compared block-for-block with the model under all map orders.",
+    note="Trusted: Lean 4.33 kernel (axioms propext, Classical.choice, Quot.sound only; audited every run); the hand-written model is tied "
+         "to the Go code only by differential testing with seeded generators (not a proof). Sequence numbers are unbounded naturals (guard < 2^32, "
+         "no uint32 wrap); phase unwrapping off (C12); sockets/ring replaced by the scripted producer (C15/C18); filler VALUES are compared with "
+         "the model but not demanded by the oracle (the property only fixes their count); 'dropped count = frames filled in' is read cumulatively "
+         "(sum over blocks = frames inserted into the queues so far, checked at every emitting tick). Unequal frames per packet between groups is "
+         "outside the statement: demuxData panics there (C03_unequal_fpp_panics; cases tagged excluded-unequal-fpp are run and recorded). Two "
+         "defects found and repaired: 9db73e7 (gap behind queued packets not filled), a0408fd (dropped count lost on 'await more data').",
     technique="Lean 4 theorems over an executable model; model tied to the Go code by a differential correspondence run",
 )
 
 THEOREMS = [
+    ("DastardV.Props.C03", "DastardV.C03.fill_inserts_exactly_gaps"),
+    ("DastardV.Lemmas.C03a", "DastardV.C03.demux_deinterleave"),
+    ("DastardV.Lemmas.C03a", "DastardV.C03.pretend_chan"),
+    ("DastardV.Props.C03", "DastardV.C03.C03_no_panic"),
+    ("DastardV.Props.C03", "DastardV.C03.C03_stream_exact"),
+    ("DastardV.Props.C03", "DastardV.C03.C03_sample_count"),
+    ("DastardV.Props.C03", "DastardV.C03.C03_frames_contiguous"),
+    ("DastardV.Props.C03", "DastardV.C03.C03_groups_aligned"),
+    ("DastardV.Props.C03", "DastardV.C03.C03_block_windows"),
+    ("DastardV.Props.C03", "DastardV.C03.C03_dropped_count"),
+    ("DastardV.Props.C03", "DastardV.C03.C03_oracle"),
+    ("DastardV.Props.C03", "DastardV.C03.C03_unequal_fpp_panics"),
 ]
